@@ -488,6 +488,8 @@ class ConcatRun:
         new = op["name"]
         if new in hole.names():
             return False
+        if NAME_KIND.get(new) != table.data[name]["kind"]:
+            return False  # one concatenated array per label: a name has one kind per group (generator precondition)
         if self.pid != "C04":
             return False  # renaming is a C04 operation (open finding there)
         if not self.p.get("allow_known") and GUARDS["rename_data"]:
@@ -1033,4 +1035,4 @@ def node_concat_object_ids(path, group_uid):
         return [v.decode() if isinstance(v, bytes) else str(v) for v in np.atleast_1d(raw).tolist()]
 
 
-GUARDS = {"rename_data": True}
+GUARDS = {"rename_data": False}  # (the rename finding is repaired: guard retired)
